@@ -201,6 +201,28 @@ def replay_file(path: str) -> int:
         data = json.load(fh)
     pid = data["property"]
     prop = PROPERTIES[pid]
+    if data.get("kind") == "rerun_mismatch":
+        # the case alone in this fresh interpreter, then again after the cases that preceded it in the batch
+        tier = data.get("tier", "quick")
+
+        def dig():
+            case, viols, stats, _ = _execute_one(pid, data["seed"], tier)
+            return core.digest([case, [v.to_json() for v in viols], _stable(stats)])
+
+        first = dig()
+        for seed in data.get("prefix_seeds", []):
+            try:
+                _execute_one(pid, seed, tier)
+            except Exception:  # noqa: BLE001
+                pass
+        second = dig()
+        if first != second:
+            print("VIOLATION property=%s replay=%s" % (pid, os.path.abspath(path)))
+            print("  oracle=%s" % data["violation"]["oracle"])
+            print("  " + data["violation"]["message"])
+            return EXIT_VIOLATION
+        print("replay %s: re-execution after %d other cases gives the same result" % (path, len(data.get("prefix_seeds", []))))
+        return EXIT_OK
     # history in the same process: cases that ran before the violating one (regenerated from their seeds)
     for seed in data.get("prefix_seeds", []):
         try:
@@ -323,7 +345,21 @@ def check(pid: str, tier: str, runs: int | None = None) -> int:
             d = "error"
         if d != rec["digest"]:
             nondeterministic.append(rec["seed"])
-    if nondeterministic:
+    history_violation = None
+    if nondeterministic and pid == "C15":
+        # For C15 this *is* the property: the same case, executed again in a process that has meanwhile handled other
+        # documents, gives a different result ("regardless of which other documents were processed before").
+        order = [r["seed"] for r in records if not r.get("post_batch")]
+        first = nondeterministic[0]
+        prefix = order[: min(len(order), 400)]
+        os.makedirs(REPLAY_DIR, exist_ok=True)
+        rpath = os.path.join(REPLAY_DIR, "C15-%d-C15_history_dependent.json" % first)
+        with open(rpath, "w") as fh:
+            json.dump({"property": "C15", "kind": "rerun_mismatch", "tier": tier, "seed": first, "prefix_seeds": prefix,
+                       "violation": {"oracle": "C15.history_dependent", "message": "the case gives a different result when it is executed after other cases in the same process", "facts": {"seeds": nondeterministic[:5]}}},
+                      fh, indent=1, sort_keys=True)
+        history_violation = rpath
+    elif nondeterministic:
         harness_errors.append("non-deterministic runs (digest differs on re-execution): seeds %r" % nondeterministic[:5])
 
     # triage
@@ -345,6 +381,11 @@ def check(pid: str, tier: str, runs: int | None = None) -> int:
 
     exit_code = EXIT_OK
     violation_lines = []
+    if history_violation:
+        exit_code = EXIT_VIOLATION
+        print("VIOLATION property=C15 replay=%s" % os.path.abspath(history_violation))
+        print("  oracle=C15.history_dependent seeds=%r" % nondeterministic[:5])
+        print("  the same case gives a different result when executed again after other cases in one process")
     for oracle in sorted(unknown):
         hits = unknown[oracle]
         hits.sort(key=lambda rv: (len(rv[0]["case"].get("ops", [])) + len(rv[0]["case"].get("doc", "")) / 1000.0, rv[0]["idx"]))
